@@ -48,22 +48,31 @@ def confirm(src):
 
 
 def run_checks(src, checks, tier):
-    rc, out = sh("git -C /repo status --porcelain --untracked-files=no")
-    assert out.strip() == "", "repo not clean: " + out
-    rc, out = sh("git -C /repo apply %s/patch.diff" % os.path.abspath(src))
+    """checks run against a scratch worktree of /repo HEAD with the patch applied (VERIF_REPO), so /repo itself and
+    anything else running against it are left alone; evidence written by these runs is discarded."""
+    wt = "/tmp/mut/run-%d" % os.getpid()
+    sh("git -C /repo worktree remove --force %s" % wt)
+    rc, out = sh("git -C /repo worktree add -q %s HEAD" % wt)
     assert rc == 0, out
     results = {}
+    evdir = "/tmp/mut/ev-%d" % os.getpid()
     try:
+        rc, out = sh("git apply %s/patch.diff" % os.path.abspath(src), cwd=wt)
+        assert rc == 0, out
         for c in checks:
             t = time.time()
             env = dict(os.environ)
+            env["VERIF_REPO"] = wt
+            # keep the committed evidence file: save and restore around the run
+            ev = os.path.join(VERIF, "evidence", "%s.json" % c)
+            saved = open(ev).read() if os.path.exists(ev) else None
             rc, out = sh("./check %s --tier %s" % (c, tier), cwd=VERIF, env=env, timeout=7200)
+            if saved is not None:
+                open(ev, "w").write(saved)
             keys = re.findall(r"clause=\S+ key=(\S+)", out)
             results[c] = dict(exit=rc, wall_s=round(time.time() - t, 1), violation_keys=keys[:8], harness="HARNESS" in out, tail=out.strip().splitlines()[-3:][0][:300] if out.strip() else "")
     finally:
-        sh("git -C /repo checkout -- .")
-        # evidence and replays written against the mutant are not kept
-        sh("git -C %s checkout -- evidence" % VERIF)
+        sh("git -C /repo worktree remove --force %s" % wt)
     return results
 
 
